@@ -65,8 +65,9 @@ a tensor object never inside tofile() in two threads, in_flight <= max(cap,1), b
 <= cap + largest tensor, an exception is delivered iff something failed and only when no worker is running, with
 in_flight = 0 and not oversized.
 
-READINGS.  "materialised bytes" = bytes of tensors between acquire's return and release (model) / inside tofile()
-(oracle); for ExternalTensor min(len, chunk).  "exactly once per tensor" is required of successful saves; failing
+READINGS.  "materialised bytes" = bytes of tensors between acquire's return and release (model) / oracle: whole
+tensor while inside tofile() for in-memory tensors, the live buffer handed to file.write for ExternalTensor
+sources (userspace copy path forced).  "exactly once per tensor" is required of successful saves; failing
 saves must not repeat a callback.  Files are compared for successful saves only (a failing sharded save leaves
 the completed shards behind in both the serial and the concurrent writer; C08's subject).  Zero-length tensors
 never reach the writer through the public API (nbytes > threshold), the model allows them anyway.
@@ -92,6 +93,16 @@ MUTANTS TRIED (scratch worktree /tmp/wt-C09, `VERIF_REPO=...`; all reported VIOL
   m8  shard writers get separate budgets                   oracle: 14 bytes materialised > 3 + 7 (two-level, serial inner)
   m9  regular release does not notify                      translator rejects + oracle: deadlock W@cond:wait (lost wake-up)
   m10 outer callback lock dropped (sharded)                oracle: two threads in the callback across shards
+
+ROUND-3 SEEDED CHANGES (tools/seed_eval.py), first missed, now caught with a replay:
+  r3m1 `finally: release` -> `except Exception: release; raise` (+ release on success)   generator now injects
+       BaseException kinds (SaveCancelled) from failing tensors / callbacks ("exc": "base"): deadlock / budget held
+  r3m2 sequential shard loop drops max_in_flight_bytes (one shard, max_workers > 1)      generator mode "oneshard"
+       (max_shard_size_bytes set, everything in ONE shard, small budget): budget counter > capacity, trace rejected
+  r3m3 ExternalTensor userspace copy reads the whole tensor at once                      the runtime hands
+       ExternalTensor.tofile a destination without fileno() (userspace copy loop, as on a file system without
+       copy_file_range), every buffer passed to write() is a scheduling point and is what "materialised" counts
+       for ExternalTensor sources (generator mode "extchunk": len > budget, chunk <= budget / 2); same in the soak
 """
 
 from __future__ import annotations
@@ -1759,6 +1770,12 @@ def run(ck) -> None:
             continue
         ck.hist("configs", f"shards={'1' if len(plan['names']) == 1 else '>1'} "
                            f"inner={'serial' if all(plan['serial']) else 'parallel' if not any(plan['serial']) else 'mixed'}")
+        if hc["max_shard"] is not None and len(plan["names"]) == 1:
+            ck.hist("configs_special", "sharding requested, one shard, max_workers > 1")
+        if any(t["ext"] and t["len"] > hc["cap"] for t in hc["tensors"]) and hc.get("chunk"):
+            ck.hist("configs_special", "ExternalTensor longer than budget, userspace copy in small chunks")
+        if any((t["cbfail"] or t["wfail"]) and t.get("exc") == "base" for t in hc["tensors"]):
+            ck.hist("configs_special", "BaseException injected")
         for j in range(per_cfg):
             r = random.Random(rng.random())
             chooser = pct_chooser(r, depth=r.choice([1, 2, 3, 5])) if j % 2 else random_chooser(r)
